@@ -193,3 +193,829 @@ Ltac rd_solve :=
         | solve [ rd_cong; rd_final ]
         | rd_last ].
 
+(* ================================================================================================ *)
+(* Part 2.  The parser: fuel never runs out, more fuel never changes the answer                      *)
+(* ================================================================================================ *)
+Local Close Scope R_scope.
+Local Open Scope nat_scope.
+
+(* ---- monotonicity in the fuel ---- *)
+
+Definition mono_at (n : nat) : Prop :=
+  (forall bp ts r, p_expr n bp ts = r -> r <> POof -> forall m, n <= m -> p_expr m bp ts = r) /\
+  (forall bp l ts r, p_loop n bp l ts = r -> r <> POof -> forall m, n <= m -> p_loop m bp l ts = r) /\
+  (forall ts r, p_prefix n ts = r -> r <> POof -> forall m, n <= m -> p_prefix m ts = r) /\
+  (forall a ts r, p_post n a ts = r -> r <> POof -> forall m, n <= m -> p_post m a ts = r) /\
+  (forall sq ts r, p_args n sq ts = r -> r <> POof -> forall m, n <= m -> p_args m sq ts = r) /\
+  (forall sq ts r, p_items n sq ts = r -> r <> POof -> forall m, n <= m -> p_items m sq ts = r).
+
+Ltac mono_sub IHe IHp IHa IHi m' :=
+  repeat match goal with
+  | H : context [match p_expr ?n ?bp ?ts with _ => _ end] |- _ =>
+      let E := fresh "E" in destruct (p_expr n bp ts) as [[? ?]| |] eqn:E;
+      [ rewrite (IHe _ _ _ E ltac:(discriminate) m' ltac:(lia))
+      | rewrite (IHe _ _ _ E ltac:(discriminate) m' ltac:(lia))
+      | congruence ]
+  | H : context [match p_prefix ?n ?ts with _ => _ end] |- _ =>
+      let E := fresh "E" in destruct (p_prefix n ts) as [[? ?]| |] eqn:E;
+      [ rewrite (IHp _ _ E ltac:(discriminate) m' ltac:(lia))
+      | rewrite (IHp _ _ E ltac:(discriminate) m' ltac:(lia))
+      | congruence ]
+  | H : context [match p_args ?n ?sq ?ts with _ => _ end] |- _ =>
+      let E := fresh "E" in destruct (p_args n sq ts) as [[? ?]| |] eqn:E;
+      [ rewrite (IHa _ _ _ E ltac:(discriminate) m' ltac:(lia))
+      | rewrite (IHa _ _ _ E ltac:(discriminate) m' ltac:(lia))
+      | congruence ]
+  | H : context [match p_items ?n ?sq ?ts with _ => _ end] |- _ =>
+      let E := fresh "E" in destruct (p_items n sq ts) as [[? ?]| |] eqn:E;
+      [ rewrite (IHi _ _ _ E ltac:(discriminate) m' ltac:(lia))
+      | rewrite (IHi _ _ _ E ltac:(discriminate) m' ltac:(lia))
+      | congruence ]
+  end.
+
+Lemma mono_all : forall n, mono_at n.
+Proof.
+  induction n as [|n IH].
+  - repeat split; intros; simpl in *; subst; congruence.
+  - destruct IH as (IHe & IHl & IHp & IHo & IHa & IHi).
+    repeat split.
+    + (* p_expr *)
+      intros bp ts r H Hr m Hm. destruct m as [|m']; [lia|]. simpl in *.
+      mono_sub IHe IHp IHa IHi m'; try congruence.
+      apply IHl; [assumption | assumption | lia].
+    + (* p_loop *)
+      intros bp l ts r H Hr m Hm. destruct m as [|m']; [lia|]. simpl in *.
+      destruct ts as [|t ts']; [assumption|].
+      destruct (binop_of t) as [[[o lb] rb]|]; [|assumption].
+      destruct (bp <=? lb); [|assumption].
+      mono_sub IHe IHp IHa IHi m'; try congruence.
+      apply IHl; [assumption | assumption | lia].
+    + (* p_prefix *)
+      intros ts r H Hr m Hm. destruct m as [|m']; [lia|]. simpl in *.
+      destruct ts as [|t ts']; [assumption|].
+      destruct t; try assumption.
+      * apply IHo; [assumption | assumption | lia].
+      * destruct ts' as [|t2 ts2]; [apply IHo; [assumption | assumption | lia]|].
+        destruct t2; try (apply IHo; [assumption | assumption | lia]).
+        mono_sub IHe IHp IHa IHi m'; try congruence.
+        apply IHo; [assumption | assumption | lia].
+      * mono_sub IHe IHp IHa IHi m'; congruence.
+      * mono_sub IHe IHp IHa IHi m'; try congruence.
+        destruct l as [|a0 [|a1 l1]]; apply IHo; (assumption || lia).
+      * mono_sub IHe IHp IHa IHi m'; try congruence.
+        apply IHo; [assumption | assumption | lia].
+    + (* p_post *)
+      intros a ts r H Hr m Hm. destruct m as [|m']; [lia|]. simpl in *.
+      destruct ts as [|t ts']; [assumption|].
+      destruct t; try assumption.
+      * mono_sub IHe IHp IHa IHi m'; try congruence.
+        apply IHo; [assumption | assumption | lia].
+      * apply IHo; [assumption | assumption | lia].
+    + (* p_args *)
+      intros sq ts r H Hr m Hm. destruct m as [|m']; [lia|]. simpl in *.
+      destruct ts as [|t ts']; [assumption|].
+      destruct (is_close sq t); [assumption|].
+      apply IHi; [assumption | assumption | lia].
+    + (* p_items *)
+      intros sq ts r H Hr m Hm. destruct m as [|m']; [lia|]. simpl in *.
+      mono_sub IHe IHp IHa IHi m'; try congruence.
+      destruct l as [|t r0]; [assumption|].
+      destruct (is_close sq t); [assumption|].
+      destruct (is_comma t); [|assumption].
+      mono_sub IHe IHp IHa IHi m'; congruence.
+Qed.
+
+(* ---- a successful parse consumes tokens ---- *)
+
+Definition cons_at (n : nat) : Prop :=
+  (forall bp ts a r, p_expr n bp ts = POk (a, r) -> length r < length ts) /\
+  (forall bp l ts a r, p_loop n bp l ts = POk (a, r) -> length r <= length ts) /\
+  (forall ts a r, p_prefix n ts = POk (a, r) -> length r < length ts) /\
+  (forall a0 ts a r, p_post n a0 ts = POk (a, r) -> length r <= length ts) /\
+  (forall sq ts l r, p_args n sq ts = POk (l, r) -> length r < length ts) /\
+  (forall sq ts l r, p_items n sq ts = POk (l, r) -> length r < length ts).
+
+Ltac cons_sub IHe IHp IHa IHi :=
+  repeat match goal with
+  | H : context [match p_expr ?n ?bp ?ts with _ => _ end] |- _ =>
+      let E := fresh "E" in destruct (p_expr n bp ts) as [[? ?]| |] eqn:E;
+      [ apply IHe in E | discriminate | discriminate ]
+  | H : context [match p_prefix ?n ?ts with _ => _ end] |- _ =>
+      let E := fresh "E" in destruct (p_prefix n ts) as [[? ?]| |] eqn:E;
+      [ apply IHp in E | discriminate | discriminate ]
+  | H : context [match p_args ?n ?sq ?ts with _ => _ end] |- _ =>
+      let E := fresh "E" in destruct (p_args n sq ts) as [[? ?]| |] eqn:E;
+      [ apply IHa in E | discriminate | discriminate ]
+  | H : context [match p_items ?n ?sq ?ts with _ => _ end] |- _ =>
+      let E := fresh "E" in destruct (p_items n sq ts) as [[? ?]| |] eqn:E;
+      [ apply IHi in E | discriminate | discriminate ]
+  end.
+
+Lemma cons_all : forall n, cons_at n.
+Proof.
+  induction n as [|n IH].
+  - repeat split; intros; simpl in *; discriminate.
+  - destruct IH as (IHe & IHl & IHp & IHo & IHa & IHi).
+    repeat split.
+    + intros bp ts a r H. simpl in H. cons_sub IHe IHp IHa IHi.
+      apply IHl in H. lia.
+    + intros bp l ts a r H. simpl in H.
+      destruct ts as [|t ts']; [inversion H; subst; simpl; lia|].
+      destruct (binop_of t) as [[[o lb] rb]|]; [|inversion H; subst; simpl; lia].
+      destruct (bp <=? lb); [|inversion H; subst; simpl; lia].
+      cons_sub IHe IHp IHa IHi. apply IHl in H. simpl. lia.
+    + intros ts a r H. simpl in H.
+      destruct ts as [|t ts']; [discriminate|].
+      destruct t; try discriminate.
+      * apply IHo in H. simpl. lia.
+      * destruct ts' as [|t2 ts2]; [apply IHo in H; simpl in *; lia|].
+        destruct t2; try (apply IHo in H; simpl in *; lia).
+        cons_sub IHe IHp IHa IHi. apply IHo in H. simpl in *. lia.
+      * cons_sub IHe IHp IHa IHi. inversion H; subst. simpl. lia.
+      * cons_sub IHe IHp IHa IHi.
+        destruct l as [|a0 [|a1 l1]]; apply IHo in H; simpl in *; lia.
+      * cons_sub IHe IHp IHa IHi. apply IHo in H. simpl in *. lia.
+    + intros a0 ts a r H. simpl in H.
+      destruct ts as [|t ts']; [inversion H; subst; simpl; lia|].
+      destruct t; try (inversion H; subst; simpl; lia).
+      * cons_sub IHe IHp IHa IHi. apply IHo in H. simpl in *. lia.
+      * apply IHo in H. simpl in *. lia.
+    + intros sq ts l r H. simpl in H.
+      destruct ts as [|t ts']; [discriminate|].
+      destruct (is_close sq t); [inversion H; subst; simpl; lia|].
+      apply IHi in H. assumption.
+    + intros sq ts l r H. simpl in H.
+      cons_sub IHe IHp IHa IHi.
+      destruct l0 as [|t r0]; [discriminate|].
+      destruct (is_close sq t); [inversion H; subst; simpl in *; lia|].
+      destruct (is_comma t); [|discriminate].
+      cons_sub IHe IHp IHa IHi. inversion H; subst. simpl in *. lia.
+Qed.
+
+(* ---- the fuel of parse_toks is enough: the parser never answers "out of fuel" ---- *)
+
+Definition enough_at (n : nat) : Prop :=
+  (forall bp ts, 4 * length ts + 4 <= n -> p_expr n bp ts <> POof) /\
+  (forall bp l ts, 4 * length ts + 1 <= n -> p_loop n bp l ts <> POof) /\
+  (forall ts, 4 * length ts + 3 <= n -> p_prefix n ts <> POof) /\
+  (forall a ts, 4 * length ts + 3 <= n -> p_post n a ts <> POof) /\
+  (forall sq ts, 4 * length ts + 6 <= n -> p_args n sq ts <> POof) /\
+  (forall sq ts, 4 * length ts + 5 <= n -> p_items n sq ts <> POof).
+
+Lemma enough_all : forall n, enough_at n.
+Proof.
+  induction n as [|n IH].
+  - repeat split; intros; lia.
+  - destruct IH as (IHe & IHl & IHp & IHo & IHa & IHi).
+    destruct (cons_all n) as (Ce & Cl & Cp & Co & Ca & Ci).
+    repeat split.
+    + intros bp ts Hn. simpl.
+      destruct (p_prefix n ts) as [[lhs r]| |] eqn:E.
+      * apply Cp in E. apply IHl. lia.
+      * discriminate.
+      * exfalso. revert E. apply IHp. lia.
+    + intros bp l ts Hn. simpl.
+      destruct ts as [|t ts']; [discriminate|].
+      destruct (binop_of t) as [[[o lb] rb]|]; [|discriminate].
+      destruct (bp <=? lb); [|discriminate].
+      simpl in Hn.
+      destruct (p_expr n rb ts') as [[rhs r']| |] eqn:E.
+      * apply Ce in E. apply IHl. lia.
+      * discriminate.
+      * exfalso. revert E. apply IHe. lia.
+    + intros ts Hn. simpl.
+      destruct ts as [|t ts']; [discriminate|]. simpl in Hn.
+      destruct t; try discriminate.
+      * apply IHo. lia.
+      * destruct ts' as [|t2 ts2]; [apply IHo; simpl; lia|].
+        destruct t2; try (apply IHo; simpl in *; lia).
+        simpl in Hn.
+        destruct (p_args n false ts2) as [[args r']| |] eqn:E.
+        -- apply Ca in E. apply IHo. lia.
+        -- discriminate.
+        -- exfalso. revert E. apply IHa. lia.
+      * destruct (p_expr n neg_bp ts') as [[a r']| |] eqn:E; try discriminate.
+        exfalso. revert E. apply IHe. lia.
+      * destruct (p_args n false ts') as [[args r']| |] eqn:E.
+        -- apply Ca in E. destruct args as [|a0 [|a1 l1]]; apply IHo; lia.
+        -- discriminate.
+        -- exfalso. revert E. apply IHa. lia.
+      * destruct (p_args n true ts') as [[args r']| |] eqn:E.
+        -- apply Ca in E. apply IHo. lia.
+        -- discriminate.
+        -- exfalso. revert E. apply IHa. lia.
+    + intros a ts Hn. simpl.
+      destruct ts as [|t ts']; [discriminate|]. simpl in Hn.
+      destruct t; try discriminate.
+      * destruct (p_args n true ts') as [[args r']| |] eqn:E.
+        -- apply Ca in E. apply IHo. lia.
+        -- discriminate.
+        -- exfalso. revert E. apply IHa. lia.
+      * apply IHo. lia.
+    + intros sq ts Hn. simpl.
+      destruct ts as [|t ts']; [discriminate|].
+      destruct (is_close sq t); [discriminate|].
+      apply IHi. lia.
+    + intros sq ts Hn. simpl.
+      destruct (p_expr n 0 ts) as [[a r]| |] eqn:E.
+      * apply Ce in E. destruct r as [|t r0]; [discriminate|].
+        destruct (is_close sq t); [discriminate|].
+        destruct (is_comma t); [|discriminate].
+        simpl in E.
+        destruct (p_items n sq r0) as [[l r']| |] eqn:E2; try discriminate.
+        exfalso. revert E2. apply IHi. lia.
+      * discriminate.
+      * exfalso. revert E. apply IHe. lia.
+Qed.
+
+Lemma parse_total_lemma : forall ts, p_expr (fuel_of ts) 0 ts <> POof.
+Proof.
+  intros ts. apply (enough_all (fuel_of ts)). unfold fuel_of. lia.
+Qed.
+
+Lemma parse_fuel_monotone_lemma :
+  forall n m bp ts r, p_expr n bp ts = r -> r <> POof -> n <= m -> p_expr m bp ts = r.
+Proof.
+  intros n m bp ts r H Hr Hm. exact (proj1 (mono_all n) bp ts r H Hr m Hm).
+Qed.
+
+(* the answer of parse_toks is the answer for every larger amount of fuel: fuel is not an observable *)
+Lemma parse_toks_fuel_irrelevant :
+  forall ts n, fuel_of ts <= n ->
+    parse_toks ts = match p_expr n 0 ts with POk (a, []) => Some a | _ => None end.
+Proof.
+  intros ts n Hn. unfold parse_toks.
+  rewrite (parse_fuel_monotone_lemma (fuel_of ts) n 0 ts _ eq_refl (parse_total_lemma ts) Hn).
+  reflexivity.
+Qed.
+
+(* ================================================================================================ *)
+(* Part 3.  parse_toks is a left inverse of the reference printer                                    *)
+(* ================================================================================================ *)
+
+(* "with enough fuel the answer is ..." *)
+Definition Pexpr bp ts res := exists n, p_expr n bp ts = POk res.
+Definition Ploop bp l ts res := exists n, p_loop n bp l ts = POk res.
+Definition Pprefix ts res := exists n, p_prefix n ts = POk res.
+Definition Ppost a ts res := exists n, p_post n a ts = POk res.
+Definition Pargs sq ts res := exists n, p_args n sq ts = POk res.
+Definition Pitems sq ts res := exists n, p_items n sq ts = POk res.
+
+Lemma ok_not_oof {A} (x : A) : POk x <> POof.
+Proof. discriminate. Qed.
+
+Ltac lift_e H m := apply (proj1 (mono_all _) _ _ _ H (ok_not_oof _) m); lia.
+Ltac lift_l H m := apply (proj1 (proj2 (mono_all _)) _ _ _ _ H (ok_not_oof _) m); lia.
+Ltac lift_p H m := apply (proj1 (proj2 (proj2 (mono_all _))) _ _ H (ok_not_oof _) m); lia.
+Ltac lift_o H m := apply (proj1 (proj2 (proj2 (proj2 (mono_all _)))) _ _ _ H (ok_not_oof _) m); lia.
+Ltac lift_a H m := apply (proj1 (proj2 (proj2 (proj2 (proj2 (mono_all _))))) _ _ _ H (ok_not_oof _) m); lia.
+Ltac lift_i H m := apply (proj2 (proj2 (proj2 (proj2 (proj2 (mono_all _))))) _ _ _ H (ok_not_oof _) m); lia.
+
+Lemma R_expr bp ts l r0 res : Pprefix ts (l, r0) -> Ploop bp l r0 res -> Pexpr bp ts res.
+Proof.
+  intros [n1 H1] [n2 H2]. exists (S (n1 + n2)). simpl.
+  assert (E1 : p_prefix (n1 + n2) ts = POk (l, r0)) by lift_p H1 (n1 + n2).
+  rewrite E1. lift_l H2 (n1 + n2).
+Qed.
+
+Definition nopost (t : token) : bool :=
+  match t with TLB | TDotT | TLP => false | _ => true end.
+
+(* the loop at binding power c stops in front of `rest` *)
+Definition stops (c : nat) (rest : list token) : Prop :=
+  match rest with
+  | [] => True
+  | t :: _ => nopost t = true /\ match binop_of t with Some (_, lb, _) => lb < c | None => True end
+  end.
+
+Lemma stops_mono c c' rest : stops c rest -> c <= c' -> stops c' rest.
+Proof.
+  destruct rest as [|t r]; simpl; [trivial|].
+  intros [H1 H2] Hc. split; [assumption|].
+  destruct (binop_of t) as [[[o lb] rb]|]; [lia|trivial].
+Qed.
+
+Lemma R_loop_stop bp l rest : stops bp rest -> Ploop bp l rest (l, rest).
+Proof.
+  intros H. exists 1. simpl. destruct rest as [|t r]; [reflexivity|].
+  simpl in H. destruct H as [_ H]. revert H. destruct (binop_of t) as [[[o lb] rb]|]; [|reflexivity].
+  intros H. destruct (bp <=? lb) eqn:E; [apply Nat.leb_le in E; lia|reflexivity].
+Qed.
+
+Definition lbp_of (o : binop) : nat :=
+  match o with OEq => 1 | OAdd | OSub => 3 | OMul | ODiv => 5 | OPow => 9 end.
+
+Lemma R_loop_step bp l o y r r' res :
+  bp <= lbp_of o ->
+  Pexpr (right_ctx o) r (y, r') -> Ploop bp (ABin o l y) r' res -> Ploop bp l (tok_of o :: r) res.
+Proof.
+  intros Hbp [n1 H1] [n2 H2]. exists (S (n1 + n2)). simpl.
+  assert (B : binop_of (tok_of o) = Some (o, lbp_of o, right_ctx o)) by (destruct o; reflexivity).
+  rewrite B.
+  assert (L : (bp <=? lbp_of o) = true) by (apply Nat.leb_le; assumption).
+  rewrite L.
+  assert (E1 : p_expr (n1 + n2) (right_ctx o) r = POk (y, r')) by lift_e H1 (n1 + n2).
+  rewrite E1. lift_l H2 (n1 + n2).
+Qed.
+
+Lemma R_neg r a r' : Pexpr 7 r (a, r') -> Pprefix (TMinus :: r) (ANeg a, r').
+Proof.
+  intros [n H]. exists (S n). simpl. unfold neg_bp. rewrite H. reflexivity.
+Qed.
+
+Lemma R_num m e r res : Ppost (ANum m e) r res -> Pprefix (TNum m e :: r) res.
+Proof. intros [n H]. exists (S n). simpl. assumption. Qed.
+
+Definition nolp (rest : list token) : Prop := match rest with TLP :: _ => False | _ => True end.
+
+Lemma R_var s r res : nolp r -> Ppost (AVar s) r res -> Pprefix (TId s :: r) res.
+Proof.
+  intros Hr [n H]. exists (S n). simpl.
+  destruct r as [|t r']; [assumption|]. destruct t; try assumption. contradiction.
+Qed.
+
+Lemma R_call s r args r' res :
+  Pargs false r (args, r') -> Ppost (ACall s args) r' res -> Pprefix (TId s :: TLP :: r) res.
+Proof.
+  intros [n1 H1] [n2 H2]. exists (S (n1 + n2)). simpl.
+  assert (E1 : p_args (n1 + n2) false r = POk (args, r')) by lift_a H1 (n1 + n2).
+  rewrite E1. lift_o H2 (n1 + n2).
+Qed.
+
+Lemma R_paren r a r' res :
+  Pargs false r ([a]%list, r') -> Ppost a r' res -> Pprefix (TLP :: r) res.
+Proof.
+  intros [n1 H1] [n2 H2]. exists (S (n1 + n2)). simpl.
+  assert (E1 : p_args (n1 + n2) false r = POk ([a]%list, r')) by lift_a H1 (n1 + n2).
+  rewrite E1. lift_o H2 (n1 + n2).
+Qed.
+
+Lemma R_tuple r args r' res :
+  Pargs false r (args, r') -> length args <> 1 -> Ppost (ACall "tuple" args) r' res -> Pprefix (TLP :: r) res.
+Proof.
+  intros [n1 H1] Hl [n2 H2]. exists (S (n1 + n2)). simpl.
+  assert (E1 : p_args (n1 + n2) false r = POk (args, r')) by lift_a H1 (n1 + n2).
+  rewrite E1.
+  destruct args as [|a0 [|a1 l1]]; [| simpl in Hl; lia |]; lift_o H2 (n1 + n2).
+Qed.
+
+Lemma R_list r args r' res :
+  Pargs true r (args, r') -> Ppost (ACall "list" args) r' res -> Pprefix (TLB :: r) res.
+Proof.
+  intros [n1 H1] [n2 H2]. exists (S (n1 + n2)). simpl.
+  assert (E1 : p_args (n1 + n2) true r = POk (args, r')) by lift_a H1 (n1 + n2).
+  rewrite E1. lift_o H2 (n1 + n2).
+Qed.
+
+Definition nopostfix (rest : list token) : Prop :=
+  match rest with TLB :: _ | TDotT :: _ => False | _ => True end.
+
+Lemma R_post_stop a rest : nopostfix rest -> Ppost a rest (a, rest).
+Proof.
+  intros H. exists 1. simpl. destruct rest as [|t r]; [reflexivity|].
+  destruct t; try reflexivity; contradiction.
+Qed.
+
+Lemma R_post_index a r args r' res :
+  Pargs true r (args, r') -> Ppost (ACall "index" (a :: args)) r' res -> Ppost a (TLB :: r) res.
+Proof.
+  intros [n1 H1] [n2 H2]. exists (S (n1 + n2)). simpl.
+  assert (E1 : p_args (n1 + n2) true r = POk (args, r')) by lift_a H1 (n1 + n2).
+  rewrite E1. lift_o H2 (n1 + n2).
+Qed.
+
+Lemma R_post_T a r res : Ppost (ACall "T" [a]%list) r res -> Ppost a (TDotT :: r) res.
+Proof. intros [n H]. exists (S n). simpl. assumption. Qed.
+
+Definition close_tok (sq : bool) : token := if sq then TRB else TRP.
+
+Lemma R_args_empty sq r : Pargs sq (close_tok sq :: r) ([], r).
+Proof. exists 1. destruct sq; reflexivity. Qed.
+
+Lemma R_args_items sq t r res : is_close sq t = false -> Pitems sq (t :: r) res -> Pargs sq (t :: r) res.
+Proof. intros Hc [n H]. exists (S n). simpl. rewrite Hc. assumption. Qed.
+
+Lemma R_args_items2 sq ts t q res :
+  ts = t :: q -> is_close sq t = false -> Pitems sq ts res -> Pargs sq ts res.
+Proof. intros ->. apply R_args_items. Qed.
+
+Lemma R_items_last sq ts a r : Pexpr 0 ts (a, close_tok sq :: r) -> Pitems sq ts ([a]%list, r).
+Proof.
+  intros [n H]. exists (S n). simpl. rewrite H. destruct sq; reflexivity.
+Qed.
+
+Lemma R_items_more sq ts a r l r' :
+  Pexpr 0 ts (a, TComma :: r) -> Pitems sq r (l, r') -> Pitems sq ts (a :: l, r').
+Proof.
+  intros [n1 H1] [n2 H2]. exists (S (n1 + n2)). simpl.
+  assert (E1 : p_expr (n1 + n2) 0 ts = POk (a, TComma :: r)) by lift_e H1 (n1 + n2).
+  rewrite E1.
+  assert (E2 : p_items (n1 + n2) sq r = POk (l, r')) by lift_i H2 (n1 + n2).
+  destruct sq; simpl; rewrite E2; reflexivity.
+Qed.
+
+(* ---- induction principle for the nested type ---- *)
+
+Lemma aexpr_ind2 (P : aexpr -> Prop)
+  (Hn : forall m e, P (ANum m e)) (Hv : forall s, P (AVar s)) (Hg : forall a, P a -> P (ANeg a))
+  (Hb : forall o a b, P a -> P b -> P (ABin o a b))
+  (Hc : forall f args, Forall P args -> P (ACall f args)) : forall a, P a.
+Proof.
+  fix IH 1. intros [m e|s|a|o a b|f args].
+  - apply Hn.
+  - apply Hv.
+  - apply Hg, IH.
+  - apply Hb; apply IH.
+  - apply Hc. revert args. fix IHl 1. intros [|x r]; constructor; [apply IH | apply IHl].
+Qed.
+
+Fixpoint sep_toks (l : list aexpr) : list token :=
+  match l with
+  | [] => []
+  | x :: r => match r with [] => raw x | _ :: _ => raw x ++ TComma :: sep_toks r end
+  end.
+
+Lemma raw_call f args :
+  raw (ACall f args) =
+  if (f =? "list")%string then TLB :: sep_toks args ++ [TRB]%list
+  else if ((f =? "tuple")%string && negb (length args =? 1))%bool then TLP :: sep_toks args ++ [TRP]%list
+  else match args with
+       | a0 :: more =>
+           if (f =? "index")%string then show 10 a0 ++ TLB :: sep_toks more ++ [TRB]%list
+           else if ((f =? "T")%string && (length more =? 0))%bool then show 10 a0 ++ [TDotT]%list
+           else TId f :: TLP :: sep_toks args ++ [TRP]%list
+       | [] => TId f :: TLP :: sep_toks args ++ [TRP]%list
+       end.
+Proof. reflexivity. Qed.
+
+Definition good_head (t : token) : Prop := is_close true t = false /\ is_close false t = false.
+
+Lemma show_head_of_raw c a :
+  (exists t r, raw a = t :: r /\ good_head t) -> exists t r, show c a = t :: r /\ good_head t.
+Proof.
+  intros (t & r & E & G). unfold show, wrap. destruct (level a <? c).
+  - exists TLP, (raw a ++ [TRP]%list). split; [reflexivity | split; reflexivity].
+  - exists t, r. split; assumption.
+Qed.
+
+Lemma raw_head : forall a, exists t r, raw a = t :: r /\ good_head t.
+Proof.
+  induction a as [m e|s|a IHa|o a b IHa IHb|f args IHargs] using aexpr_ind2.
+  - eexists _, _. split; [reflexivity | split; reflexivity].
+  - eexists _, _. split; [reflexivity | split; reflexivity].
+  - eexists _, _. split; [reflexivity | split; reflexivity].
+  - destruct (show_head_of_raw (left_ctx o) a IHa) as (t & r & E & G).
+    exists t, (r ++ tok_of o :: show (right_ctx o) b). split; [|assumption].
+    change (raw (ABin o a b)) with (show (left_ctx o) a ++ tok_of o :: show (right_ctx o) b).
+    rewrite E. reflexivity.
+  - rewrite raw_call.
+    destruct (f =? "list")%string; [eexists _, _; split; [reflexivity | split; reflexivity]|].
+    destruct ((f =? "tuple")%string && negb (length args =? 1))%bool;
+      [eexists _, _; split; [reflexivity | split; reflexivity]|].
+    destruct args as [|a0 more]; [eexists _, _; split; [reflexivity | split; reflexivity]|].
+    inversion IHargs as [|? ? H0 Hm]; subst.
+    destruct (show_head_of_raw 10 a0 H0) as (t & r & E & G).
+    destruct (f =? "index")%string.
+    + exists t, (r ++ TLB :: sep_toks more ++ [TRB]%list). rewrite E. split; [reflexivity | assumption].
+    + destruct ((f =? "T")%string && (length more =? 0))%bool.
+      * exists t, (r ++ [TDotT]%list). rewrite E. split; [reflexivity | assumption].
+      * eexists _, _. split; [reflexivity | split; reflexivity].
+Qed.
+
+(* ---- the statement proved by induction ---- *)
+
+Definition SP (a : aexpr) : Prop :=
+  (forall c d rest res, c <= d -> d <= 10 -> stops (Nat.max d (level a) + 1) rest ->
+     Ploop c a rest res -> Pexpr c (show d a ++ rest) res) /\
+  (forall rest res, nolp rest -> Ppost a rest res -> Pprefix (show 10 a ++ rest) res).
+
+Lemma stops_nopostfix c rest : stops c rest -> nopostfix rest /\ nolp rest.
+Proof.
+  destruct rest as [|t r]; simpl; [tauto|]. intros [H _]. destruct t; simpl in *; try discriminate; tauto.
+Qed.
+
+Lemma stops_8_7 rest : stops 8 rest -> stops 7 rest.
+Proof.
+  destruct rest as [|t r]; simpl; [trivial|]. intros [H1 H2]. split; [assumption|].
+  destruct t; simpl in *; trivial; lia.
+Qed.
+
+Lemma level_le_10 a : level a <= 10.
+Proof. destruct a as [| | |[] ? ?|]; simpl; lia. Qed.
+
+Lemma SP_of_atom a :
+  level a = 10 ->
+  (forall rest res, nolp rest -> Ppost a rest res -> Pprefix (raw a ++ rest) res) -> SP a.
+Proof.
+  intros Hl Hat. split.
+  - intros c d rest res Hcd Hd Hst Hloop.
+    unfold show, wrap. rewrite Hl.
+    assert (E : (10 <? d) = false) by (apply Nat.ltb_ge; assumption). rewrite E.
+    destruct (stops_nopostfix _ _ Hst) as [Hnp Hnl].
+    eapply R_expr; [|exact Hloop].
+    apply Hat; [assumption|]. apply R_post_stop. assumption.
+  - intros rest res Hnl Hpost. unfold show, wrap. rewrite Hl. simpl. apply Hat; assumption.
+Qed.
+
+Lemma SP_of_raw a :
+  level a < 10 -> 1 <= level a ->
+  (forall c rest res, c <= level a -> stops (level a + 1) rest -> Ploop c a rest res ->
+     Pexpr c (raw a ++ rest) res) -> SP a.
+Proof.
+  intros Hl Hl1 HB.
+  assert (Hparen : forall rest res, Ppost a rest res -> Pprefix (TLP :: raw a ++ TRP :: rest) res).
+  { intros rest res Hpost.
+    eapply R_paren; [|exact Hpost].
+    destruct (raw_head a) as (t & r & E & [G1 G2]).
+    apply (R_args_items2 false _ t (r ++ TRP :: rest)); [rewrite E; reflexivity | assumption |].
+    apply (R_items_last false).
+    apply HB; [lia | simpl; split; [reflexivity|trivial] |].
+    apply R_loop_stop. simpl. split; [reflexivity|trivial]. }
+  split.
+  - intros c d rest res Hcd Hd Hst Hloop.
+    unfold show, wrap. destruct (level a <? d) eqn:E.
+    + simpl. rewrite <- app_assoc. simpl.
+      destruct (stops_nopostfix _ _ Hst) as [Hnp Hnl].
+      eapply R_expr; [|exact Hloop]. apply Hparen. apply R_post_stop. assumption.
+    + apply Nat.ltb_ge in E. apply HB; [lia | | assumption].
+      replace (Nat.max d (level a)) with (level a) in Hst by lia. assumption.
+  - intros rest res Hnl Hpost. unfold show, wrap.
+    assert (E : (level a <? 10) = true) by (apply Nat.ltb_lt; assumption). rewrite E.
+    simpl. rewrite <- app_assoc. simpl. apply Hparen. assumption.
+Qed.
+
+Lemma SP_items sq rest : forall l, l <> [] -> Forall SP l ->
+  Pitems sq (sep_toks l ++ close_tok sq :: rest) (l, rest).
+Proof.
+  induction l as [|x r IH]; intros Hne HF; [congruence|].
+  inversion HF as [|? ? Hx Hr]; subst.
+  assert (Hshow0 : show 0 x = raw x) by reflexivity.
+  destruct r as [|y r'].
+  - simpl. apply R_items_last. rewrite <- Hshow0.
+    apply (proj1 Hx 0 0); [lia | lia | destruct sq; simpl; (split; [reflexivity|trivial]) |].
+    apply R_loop_stop. destruct sq; simpl; (split; [reflexivity|trivial]).
+  - change (sep_toks (x :: y :: r')) with (raw x ++ TComma :: sep_toks (y :: r')).
+    rewrite <- app_assoc. simpl.
+    eapply R_items_more.
+    + rewrite <- Hshow0.
+      apply (proj1 Hx 0 0); [lia | lia | simpl; (split; [reflexivity|trivial]) |].
+      apply R_loop_stop. simpl; (split; [reflexivity|trivial]).
+    + apply IH; [discriminate | assumption].
+Qed.
+
+Lemma SP_args sq rest l : Forall SP l -> Pargs sq (sep_toks l ++ close_tok sq :: rest) (l, rest).
+Proof.
+  intros HF. destruct l as [|x r].
+  - simpl. apply R_args_empty.
+  - pose proof (SP_items sq rest (x :: r) ltac:(discriminate) HF) as Hi.
+    assert (Hh : exists t q, sep_toks (x :: r) = t :: q /\ good_head t).
+    { destruct (raw_head x) as (t & q & E & G). destruct r as [|y r'].
+      - exists t, q. split; assumption.
+      - exists t, (q ++ TComma :: sep_toks (y :: r')).
+        change (sep_toks (x :: y :: r')) with (raw x ++ TComma :: sep_toks (y :: r')). rewrite E.
+        split; [reflexivity|assumption]. }
+    destruct Hh as (t & q & E & [G1 G2]).
+    apply (R_args_items2 sq _ t (q ++ close_tok sq :: rest)); [rewrite E; reflexivity | destruct sq; assumption | assumption].
+Qed.
+
+Lemma SP_all : forall a, SP a.
+Proof.
+  induction a as [m e|s|x IHx|o x y IHx IHy|f args IHargs] using aexpr_ind2.
+  - apply SP_of_atom; [reflexivity|]. intros rest res Hnl Hp. simpl. apply R_num. assumption.
+  - apply SP_of_atom; [reflexivity|]. intros rest res Hnl Hp. simpl. apply R_var; assumption.
+  - (* ANeg *)
+    apply SP_of_raw; [simpl; lia | simpl; lia |].
+    intros c rest res Hc Hst Hloop. simpl in Hc, Hst.
+    change (raw (ANeg x)) with (TMinus :: show 7 x). simpl.
+    eapply R_expr; [|exact Hloop]. apply R_neg.
+    apply (proj1 IHx 7 7); [lia | lia | |].
+    + eapply stops_mono; [exact Hst | lia].
+    + apply R_loop_stop. apply stops_8_7. assumption.
+  - (* ABin *)
+    assert (Hlev : level (ABin o x y) <= lbp_of o /\ level (ABin o x y) <= right_ctx o /\
+                   lbp_of o <= left_ctx o /\ left_ctx o <= 10 /\ 1 <= level (ABin o x y) /\
+                   level (ABin o x y) < 10 /\ right_ctx o <= 10)
+      by (destruct o; simpl; lia).
+    destruct Hlev as (L1 & L2 & L3 & L4 & L5 & L6 & L7).
+    apply SP_of_raw; [assumption | assumption |].
+    intros c rest res Hc Hst Hloop.
+    change (raw (ABin o x y)) with (show (left_ctx o) x ++ tok_of o :: show (right_ctx o) y).
+    rewrite <- app_assoc. simpl.
+    apply (proj1 IHx c (left_ctx o)); [lia | assumption | |].
+    + simpl. split; [destruct o; reflexivity|].
+      replace (binop_of (tok_of o)) with (Some (o, lbp_of o, right_ctx o)) by (destruct o; reflexivity).
+      lia.
+    + eapply R_loop_step; [lia | | exact Hloop].
+      apply (proj1 IHy (right_ctx o) (right_ctx o)); [lia | assumption | |].
+      * eapply stops_mono; [exact Hst | lia].
+      * apply R_loop_stop.
+        destruct o; simpl in *; try assumption. apply stops_8_7. assumption.
+  - (* ACall *)
+    apply SP_of_atom; [reflexivity|]. intros rest res Hnl Hp.
+    rewrite raw_call.
+    destruct (f =? "list")%string eqn:E1.
+    { apply String.eqb_eq in E1. subst f. simpl. rewrite <- app_assoc. simpl.
+      eapply R_list; [|exact Hp]. apply (SP_args true). assumption. }
+    destruct ((f =? "tuple")%string && negb (length args =? 1))%bool eqn:E2.
+    { apply andb_true_iff in E2. destruct E2 as [E2 E3]. apply String.eqb_eq in E2. subst f.
+      apply negb_true_iff, Nat.eqb_neq in E3.
+      simpl. rewrite <- app_assoc. simpl.
+      eapply R_tuple; [|exact E3|exact Hp]. apply (SP_args false). assumption. }
+    assert (Hord : Pprefix ((TId f :: TLP :: sep_toks args ++ [TRP]%list) ++ rest) res).
+    { simpl. rewrite <- app_assoc. simpl. eapply R_call; [|exact Hp]. apply (SP_args false). assumption. }
+    destruct args as [|a0 more]; [exact Hord|].
+    inversion IHargs as [|? ? H0 Hm]; subst.
+    destruct (f =? "index")%string eqn:E3.
+    { apply String.eqb_eq in E3. subst f. rewrite <- app_assoc. simpl. rewrite <- app_assoc. simpl.
+      apply (proj2 H0); [exact I|].
+      eapply R_post_index; [|exact Hp]. apply (SP_args true). assumption. }
+    destruct ((f =? "T")%string && (length more =? 0))%bool eqn:E4; [|exact Hord].
+    apply andb_true_iff in E4. destruct E4 as [E4 E5]. apply String.eqb_eq in E4. subst f.
+    apply Nat.eqb_eq in E5. destruct more; [|discriminate].
+    rewrite <- app_assoc. simpl.
+    apply (proj2 H0); [exact I|]. apply R_post_T. assumption.
+Qed.
+
+Theorem parse_show_toks_lemma : forall a, parse_toks (show 0 a) = Some a.
+Proof.
+  intros a.
+  destruct (proj1 (SP_all a) 0 0 [] (a, []) ltac:(lia) ltac:(lia) I (R_loop_stop 0 a [] I)) as [n Hn].
+  rewrite app_nil_r in Hn.
+  set (m := Nat.max n (fuel_of (show 0 a))).
+  rewrite (parse_toks_fuel_irrelevant (show 0 a) m ltac:(unfold m; lia)).
+  rewrite (parse_fuel_monotone_lemma n m 0 _ _ Hn (ok_not_oof _) ltac:(unfold m; lia)).
+  reflexivity.
+Qed.
+
+(* ================================================================================================ *)
+(* Part 4.  The lexer never runs out of fuel                                                         *)
+(* ================================================================================================ *)
+
+Lemma span_length f s : String.length (snd (span f s)) <= String.length s.
+Proof.
+  induction s as [|c r IH]; simpl; [lia|].
+  destruct (f c); simpl; [|lia].
+  destruct (span f r) as [a b]. simpl in *. lia.
+Qed.
+
+Lemma span_length_first f c r : f c = true -> String.length (snd (span f (String c r))) <= String.length r.
+Proof.
+  intros H. simpl. rewrite H. pose proof (span_length f r) as L. destruct (span f r) as [a b]. simpl in *. lia.
+Qed.
+
+Lemma strip_prefix_length p : forall s rest, strip_prefix p s = Some rest ->
+  String.length rest + String.length p = String.length s.
+Proof.
+  induction p as [|a p IH]; intros s rest H; simpl in *.
+  - inversion H; subst. lia.
+  - destruct s as [|b s']; [discriminate|]. destruct (Ascii.eqb a b); [|discriminate].
+    apply IH in H. simpl. lia.
+Qed.
+
+Lemma match_name_length names s : forall best nm rest,
+  (forall b r, best = Some (b, r) -> String.length r < String.length s) ->
+  match_name names s best = Some (nm, rest) -> String.length rest < String.length s.
+Proof.
+  induction names as [|n more IH]; intros best nm rest Hb H; simpl in H.
+  - apply (Hb nm rest H).
+  - apply IH in H; [assumption|].
+    intros b r Hbr.
+    destruct (strip_prefix n s) as [rest0|] eqn:E; [|apply (Hb b r Hbr)].
+    apply strip_prefix_length in E.
+    destruct best as [[b0 r0]|].
+    + destruct (String.length b0 <? String.length n) eqn:E2.
+      * inversion Hbr; subst. apply Nat.ltb_lt in E2. lia.
+      * apply (Hb b r Hbr).
+    + destruct (0 <? String.length n) eqn:E2; [|discriminate].
+      inversion Hbr; subst. apply Nat.ltb_lt in E2. lia.
+Qed.
+
+Lemma lex_frac_length r1 : String.length (snd (lex_frac r1)) <= String.length r1.
+Proof.
+  unfold lex_frac. destruct r1 as [|c r]; simpl; [lia|].
+  destruct (Ascii.eqb c "."); simpl; [|lia].
+  destruct r as [|c0 r0]; simpl; [lia|].
+  destruct (is_digit c0) eqn:E; simpl; [|lia].
+  pose proof (span_length_first is_digit c0 r0 E) as L. simpl in L. rewrite E in L.
+  destruct (span is_digit r0); simpl in *. lia.
+Qed.
+
+Lemma lex_digits1_length r v q : lex_digits1 r = Some (v, q) -> String.length q <= String.length r.
+Proof.
+  unfold lex_digits1. pose proof (span_length is_digit r) as L.
+  destruct (span is_digit r) as [d r']. simpl in L.
+  destruct (0 <? String.length d); [|discriminate]. intros H; inversion H; subst. assumption.
+Qed.
+
+Lemma lex_exp_length r x q : lex_exp r = Some (x, q) -> String.length q <= String.length r.
+Proof.
+  unfold lex_exp. destruct r as [|c r']; [discriminate|].
+  destruct (Ascii.eqb c "-").
+  { destruct (lex_digits1 r') as [[v q0]|] eqn:E; [|discriminate].
+    intros H; inversion H; subst. apply lex_digits1_length in E. simpl. lia. }
+  destruct (Ascii.eqb c "+").
+  { destruct (lex_digits1 r') as [[v q0]|] eqn:E; [|discriminate].
+    intros H; inversion H; subst. apply lex_digits1_length in E. simpl. lia. }
+  destruct (lex_digits1 (String c r')) as [[v q0]|] eqn:E; [|discriminate].
+  intros H; inversion H; subst. apply lex_digits1_length in E. assumption.
+Qed.
+
+Lemma lex_number_length c r t rest :
+  is_digit c = true -> lex_number (String c r) = Some (t, rest) -> String.length rest <= String.length r.
+Proof.
+  intros Hc H. unfold lex_number in H.
+  pose proof (span_length_first is_digit c r Hc) as L1.
+  destruct (span is_digit (String c r)) as [ip r1]. simpl in L1.
+  pose proof (lex_frac_length r1) as L2.
+  destruct (lex_frac r1) as [fp r2]. simpl in L2.
+  destruct r2 as [|c2 r3].
+  - inversion H; subst. simpl in *. lia.
+  - destruct (Ascii.eqb c2 "e" || Ascii.eqb c2 "E")%bool.
+    + destruct (lex_exp r3) as [[x r']|] eqn:E; [|discriminate].
+      inversion H; subst. apply lex_exp_length in E. simpl in *. lia.
+    + destruct (is_idchar c2); [discriminate|]. inversion H; subst. simpl in *. lia.
+Qed.
+
+Lemma dot_t_length s rest : dot_t s = Some rest -> String.length rest < String.length s.
+Proof.
+  unfold dot_t. destruct s as [|c [|c1 r']]; try discriminate.
+  destruct (Ascii.eqb c "." && Ascii.eqb c1 "T")%bool; [|discriminate].
+  destruct r' as [|c2 r'']; [intros H; inversion H; subst; simpl; lia|].
+  destruct (is_idchar c2); [discriminate|]. intros H; inversion H; subst. simpl. lia.
+Qed.
+
+Lemma lcons_not_oof t r : r <> LOof -> lcons t r <> LOof.
+Proof. destruct r; simpl; congruence. Qed.
+
+Lemma lex_enough : forall n names s, String.length s < n -> lex_fuel n names s <> LOof.
+Proof.
+  induction n as [|n IH]; intros names s Hn; [lia|].
+  simpl. destruct s as [|c r]; [discriminate|]. simpl in Hn.
+  destruct (is_space c); [apply IH; lia|].
+  destruct (match_name names (String c r) None) as [[nm rest]|] eqn:Em.
+  { apply lcons_not_oof. apply IH.
+    apply match_name_length in Em; [simpl in Em; lia | intros; discriminate]. }
+  destruct (is_digit c) eqn:Ed.
+  { destruct (lex_number (String c r)) as [[t rest]|] eqn:El; [|discriminate].
+    apply lcons_not_oof, IH. apply (lex_number_length c r t rest Ed) in El. lia. }
+  destruct (is_alpha c) eqn:Ea.
+  { assert (Hi : is_idchar c = true) by (unfold is_idchar; rewrite Ea; reflexivity).
+    pose proof (span_length_first is_idchar c r Hi) as L.
+    destruct (span is_idchar (String c r)) as [id rest]. simpl in L.
+    apply lcons_not_oof, IH. lia. }
+  destruct (sym_token c); [apply lcons_not_oof, IH; lia|].
+  destruct (dot_t (String c r)) as [rest|] eqn:Edt; [|discriminate].
+  apply dot_t_length in Edt. simpl in Edt. apply lcons_not_oof, IH. lia.
+Qed.
+
+Lemma lex_total_lemma : forall names s, lex_fuel (S (String.length s)) names s <> LOof.
+Proof. intros. apply lex_enough. lia. Qed.
+
+(* ================================================================================================ *)
+(* Part 5.  Non-vacuity: the reader on concrete strings                                              *)
+(* ================================================================================================ *)
+Local Open Scope string_scope.
+
+Example ex_left_assoc_sub :
+  parse_code [] "a - b - c" = Some (ABin OSub (ABin OSub (AVar "a") (AVar "b")) (AVar "c")).
+Proof. vm_compute. reflexivity. Qed.
+
+Example ex_left_assoc_div :
+  parse_code [] "a / b / c" = Some (ABin ODiv (ABin ODiv (AVar "a") (AVar "b")) (AVar "c")).
+Proof. vm_compute. reflexivity. Qed.
+
+Example ex_div_mul :
+  parse_code [] "a / b * c" = Some (ABin OMul (ABin ODiv (AVar "a") (AVar "b")) (AVar "c")).
+Proof. vm_compute. reflexivity. Qed.
+
+Example ex_pow_right_assoc :
+  parse_code [] "a^b^c" = Some (ABin OPow (AVar "a") (ABin OPow (AVar "b") (AVar "c"))).
+Proof. vm_compute. reflexivity. Qed.
+
+Example ex_neg_pow :
+  parse_code [] "-a^2" = Some (ANeg (ABin OPow (AVar "a") (ANum 2 0))).
+Proof. vm_compute. reflexivity. Qed.
+
+Example ex_pow_neg_exponent :
+  parse_code [] "2^-x * y" = Some (ABin OMul (ABin OPow (ANum 2 0) (ANeg (AVar "x"))) (AVar "y")).
+Proof. vm_compute. reflexivity. Qed.
+
+Example ex_neg_mul :
+  parse_code [] "-a * b" = Some (ABin OMul (ANeg (AVar "a")) (AVar "b")).
+Proof. vm_compute. reflexivity. Qed.
+
+Example ex_call_decimal :
+  parse_code ["1 Gyr"] "log(t / 1 Gyr, 10) + 2.50e-3" =
+  Some (ABin OAdd (ACall "log" [ABin ODiv (AVar "t") (AVar "1 Gyr"); ANum 10 0]) (ANum 250 (-5))).
+Proof. vm_compute. reflexivity. Qed.
+
+Example ex_no_implicit_product : parse_code [] "2 x" = None.
+Proof. vm_compute. reflexivity. Qed.
+
+Example ex_unbalanced : parse_code [] "(a + b" = None.
+Proof. vm_compute. reflexivity. Qed.
+
+Example ex_show_minimal :
+  show 0 (ABin ODiv (AVar "a") (ABin OMul (AVar "b") (ABin OPow (ANeg (AVar "c")) (ANum 2 0)))) =
+  [TId "a"; TSlash; TLP; TId "b"; TStar; TLP; TMinus; TId "c"; TRP; TCaret; TNum 2 0; TRP].
+Proof. vm_compute. reflexivity. Qed.
